@@ -1173,6 +1173,57 @@ func runDirected(e *emitter, st *stats, only int, onlyPrefix string) {
 			return ops
 		}})
 	}
+	// a *JobDetail object that goes through Schedule / Pause / Delete (or Clear) and is handed to ScheduleJob again with ANOTHER
+	// trigger, then ResumeJob: the fire time after the resume is computed at the moment of resumption by the job's current trigger
+	// (nothing of the object's earlier life may survive); then the clock passes the fire time that was pending at the pause
+	for _, qv := range []string{"nd", "nc", "nh"} {
+		for _, how := range []byte{'D', 'C'} {
+			qv, how := qv, how
+			scenarios = append(scenarios, sc{name: fmt.Sprintf("reused-detail %c %s", how, qv), variant: qv, misCap: 8, run: func(w *world) []op {
+				a := w.addTrig(newSimple(0, int64(4*time.Millisecond))) // pending fire time at the pause: 4 ms ahead
+				b := w.addTrig(newSimple(0, futNS))
+				u := w.addTrig(newSimple(0, futNS))
+				gone := w.opKey('D', "a", "default")
+				if how == 'C' {
+					gone = w.opClear()
+				}
+				return []op{
+					w.opSchedule("b", "g", false, false, u, false),
+					w.opSchedule("a", "default", false, false, a, false),
+					w.opKey('P', "a", "default"), gone,
+					{late: func() op { return w.opScheduleReuse(w.pickDetail("a", "default", false, 0), b) }},
+					w.opKey('R', "a", "default"), w.opKey('G', "a", "default"),
+					{kind: 'F'}, {kind: 'F', wait: 6 * time.Millisecond}, {kind: 'F', sched: 1},
+					// ... and the same object once more, active this time, over itself with Replace switched on by the caller? no: a fresh one
+					w.opKey('P', "a", "default"),
+					{late: func() op { return w.opScheduleReuse(w.pickDetail("a", "default", false, 0), a) }}, // registered and paused: ErrJobAlreadyExists
+					w.opKey('R', "a", "default"), {kind: 'F'},
+				}
+			}})
+		}
+	}
+	// jobs added (or replaced) in the PAUSED state with a stateful trigger -- RunOnceTrigger, a 3-shot script --: nothing is asked of the
+	// trigger while the job is paused, so after ResumeJob the run-once job still fires once and the 3-shot job three times
+	for _, qv := range []string{"nd", "nc", "nh"} {
+		qv := qv
+		scenarios = append(scenarios, sc{name: "suspended-stateful " + qv, variant: qv, misCap: 8, run: func(w *world) []op {
+			bb := w.born
+			once := w.addTrig(newOnce(0, dueNS, false))
+			three := w.addTrig(newScript(0, []fire{{bb + dueNS + 1000, -1}, {bb + dueNS + 2000, -1}, {bb + dueNS + 3000, -1}}, fire{0, 0}))
+			u := w.addTrig(newSimple(0, futNS))
+			once2 := w.addTrig(newOnce(0, dueNS, false))
+			return []op{
+				w.opSchedule("a", "default", false, true, once, false),
+				w.opSchedule("a", "g", false, true, three, false),
+				w.opSchedule("b", "g", false, false, u, false),
+				w.opSchedule("b", "g", true, true, once2, false), // replaced by a paused job
+				f, f,
+				w.opKey('R', "a", "default"), f, f,
+				w.opKey('R', "a", "g"), f, f, f, f, f,
+				w.opKey('R', "b", "g"), f, f, w.opKeys(),
+			}
+		}})
+	}
 	for i, s := range scenarios {
 		if aborted {
 			return
